@@ -139,8 +139,10 @@ func (x *Exec) posOf(p token.Pos) string {
 	}
 	pp := x.fset.Position(p)
 	f := pp.Filename
-	if i := strings.Index(f, "/repo/"); i >= 0 {
-		f = f[i+6:]
+	if rd := repoDir() + "/"; strings.HasPrefix(f, rd) {
+		f = f[len(rd):]
+	} else if i := strings.Index(f, "/src/"); i >= 0 && strings.Contains(f, "/toolchain@") {
+		f = "GOROOT" + f[i:]
 	}
 	return fmt.Sprintf("%s:%d", f, pp.Line)
 }
